@@ -132,6 +132,17 @@ CLAIMED = {
             'order, and the jackknife product differs by a second-order remainder. Entries of matmul / inv / det are run through the model of '
             'derived_observable and compared; each identity is evaluated on the implementation in Obs / CObs arithmetic (value and every fluctuation).',
             'Lean kernel; standard axioms; LAPACK and autograd vjps of the linalg functions by contract (identities measured each run); generator-bounded search.', '5 C10'),
+    'C16': ('Lean 4 theorems (Mathlib Matrix: exact N-state spectrum solves the GEVP, projected correlator = exp(-E (t-t0)), Cholesky route equivalence, reversed ascending order, Hankel/Vandermonde factorisation of the pencil method, pruning, symmetrisation; executable model of the GEVP control flow: undefined pattern, state i = LAPACK vector N-1-i, _sort_vectors is a permutation and recovers the reference labelling, refusals, pencil Hankel slicing) + model/impl correspondence with LAPACK decompositions as oracle input + known-spectrum oracle evaluated on the implementation',
+            'Proof: for G(t) = Psi^T diag(exp(-E t)) Psi with invertible Psi the columns of Psi^-1 solve G(t) v = exp(-E_n (t-t0)) G(t0) v and the projected '
+            'correlator is exp(-E_n (t-t0)); the Cholesky route solves the same problem; reversing the ascending order puts the largest eigenvalue first; the '
+            'Hankel matrices of a k-exponential signal factor through Vandermonde matrices so the pencil eigenvalues are exp(-E_n); projecting on exact '
+            'eigenvectors preserves the retained energies; symmetrisation yields a symmetric matrix and fixes symmetric ones. For the executable model of '
+            'pyerrors\' own logic around the solver: which result entries are undefined (t <= t0, undefined slices), state i is the (N-1-i)-th LAPACK vector, '
+            '_sort_vectors returns for every timeslice a permutation of its input and, when the scores single out one assignment (proved for vectors '
+            'proportional to independent reference vectors), places vector k at reference state sigma(k); the refusals; the pencil matrices are the Hankel '
+            'matrices with offsets 0 and 1. The model is run with LAPACK\'s decompositions as oracle input and compared with Corr.GEVP / _sort_vectors / '
+            'projected / the pencil matrices; the statement is evaluated on matrices of known spectrum incl. eigenvalue orders that permute over time.',
+            'Lean kernel; standard axioms; LAPACK eigen-solvers / Cholesky / SVD / det and autograd vjps by contract (eigen-equation residuals, differentiated identities measured each run); the model\'s Laplace determinant is not proved equal to Matrix.det (correspondence only); generator-bounded search.', '5 C16'),
 }
 
 NOT_YET = {}
